@@ -605,7 +605,10 @@ func (c *wouldApplyContext) wouldApplyLookupContext1(data tables.SequenceContext
 
 func (c *wouldApplyContext) wouldApplyLookupContext2(data tables.SequenceContextFormat2, index int, glyphID GID) bool {
 	class := getClass(data.ClassDef, gID(glyphID))
-	ruleSet := data.ClassSeqRuleSet[class]
+	var ruleSet tables.SequenceRuleSet
+	if int(class) < len(data.ClassSeqRuleSet) {
+		ruleSet = data.ClassSeqRuleSet[class]
+	}
 	return c.wouldApplyRuleSet(ruleSet, matchClass(data.ClassDef))
 }
 
@@ -642,7 +645,10 @@ func (c *wouldApplyContext) wouldApplyLookupChainedContext1(data tables.ChainedS
 
 func (c *wouldApplyContext) wouldApplyLookupChainedContext2(data tables.ChainedSequenceContextFormat2, index int, glyphID GID) bool {
 	class := getClass(data.InputClassDef, gID(glyphID))
-	ruleSet := data.ChainedClassSeqRuleSet[class]
+	var ruleSet tables.ChainedClassSequenceRuleSet
+	if int(class) < len(data.ChainedClassSeqRuleSet) {
+		ruleSet = data.ChainedClassSeqRuleSet[class]
+	}
 	return c.wouldApplyChainRuleSet(ruleSet, matchClass(data.InputClassDef))
 }
 
